@@ -45,7 +45,20 @@ def lexpr(e):
     return expr(e)
 
 
-def expr(e):
+_STRATS = []       # the Stratification objects of the model being built (see "shared_strats" in build)
+_SHARE = None      # with "share_exprs" in a program: one Python object per distinct expression, as a user who defines
+
+
+def expr(e):       # a rate once and uses it at several sites (flow rate, computed value, adjustment) would have
+    if isinstance(e, dict) and _SHARE is not None:
+        key = json.dumps(e, sort_keys=True)
+        if key not in _SHARE:
+            _SHARE[key] = _expr(e)
+        return _SHARE[key]
+    return _expr(e)
+
+
+def _expr(e):
     if isinstance(e, str):
         if e == "t":
             return Time
@@ -179,7 +192,9 @@ def apply_op(m, o):
     elif k == "udeath":
         m.add_universal_death_flows(o["name"], pyval(o["pyrate"]) if o.get("pyrate") is not None else expr(o["param"]))
     elif k == "strat":
-        m.stratify_with(build_strat(o))
+        st_ = build_strat(o)
+        m.stratify_with(st_)
+        _STRATS.append(st_)
     elif k == "rebalance":
         m.adjust_population_split(o["strat"], dict(o.get("filt") or {}), {s: expr(e) for s, e in o["props"].items()})
     elif k == "req":
@@ -321,7 +336,7 @@ def observe(m, o):
                 elif c["call"] == "set_defaults":
                     fresh.set_default_parameters(params(c))
                     outs.append(None)
-            except (KeyboardInterrupt, SystemExit):
+            except (KeyboardInterrupt, SystemExit, ObservationTimeLimit):
                 raise
             except BaseException as e:  # noqa
                 outs.append({"error": repr(e)[:200]})
@@ -347,7 +362,7 @@ def observe(m, o):
                 else:
                     raise ValueError(c["name"])
                 res.append(vec(np.asarray(r)))
-            except (KeyboardInterrupt, SystemExit):
+            except (KeyboardInterrupt, SystemExit, ObservationTimeLimit):
                 raise
             except BaseException as e:  # noqa
                 res.append({"error": repr(e)[:200]})
@@ -394,7 +409,7 @@ def observe(m, o):
                         runs.append({"outputs": [vec(row) for row in np.asarray(res["outputs"])],
                                      "derived": {k2: vec(np.asarray(v)) for k2, v in res["derived_outputs"].items()}})
                 rec["runs"] = runs
-            except (KeyboardInterrupt, SystemExit):
+            except (KeyboardInterrupt, SystemExit, ObservationTimeLimit):
                 raise
             except BaseException as e:  # noqa
                 import traceback
@@ -421,7 +436,9 @@ def observe(m, o):
         for solver in o["solvers"]:
             rec = {}
             try:
-                runner = m.get_runner(psets[0], solver=solver, jit=True, **({"dyn_params": o["dyn"]} if o.get("dyn") is not None else {}))
+                sname, _, sargs = solver.partition("|")        # "solve_ivp|{...}": the solver with its own options
+                runner = m.get_runner(psets[0], solver=sname, jit=True, **({"solver_args": json.loads(sargs)} if sargs else {}),
+                                      **({"dyn_params": o["dyn"]} if o.get("dyn") is not None else {}))
                 runs = []
                 for ps in psets:
                     res = runner._run_func(parameters=ps if o.get("dyn") is None else {k2: v for k2, v in ps.items() if k2 in o["dyn"]})
@@ -431,7 +448,7 @@ def observe(m, o):
                 one = jax.jit(runner.impl_dict["one_step"])
                 r1 = one(psets[0], num(o["t"]), np.array([num(v) for v in o["x"]]))
                 rec["one_step"] = {"flow_rates": vec(np.asarray(r1.flow_rates)), "comp_rates": vec(np.asarray(r1.comp_rates))}
-            except (KeyboardInterrupt, SystemExit):
+            except (KeyboardInterrupt, SystemExit, ObservationTimeLimit):
                 raise
             except BaseException as e:  # noqa
                 import traceback
@@ -462,20 +479,39 @@ def observe(m, o):
 
 def build(prog):
     """Returns (model or None, index of the failing op or None, exception repr)."""
+    global _SHARE
+    _SHARE = {} if prog.get("share_exprs") else None
+    del _STRATS[:]
     try:
         t0, t1, h = (num(x) for x in prog["times"])
         m = CompartmentalModel([t0, t1], list(prog["comps"]), list(prog["inf"]), timestep=h)
-    except (KeyboardInterrupt, SystemExit):
+    except (KeyboardInterrupt, SystemExit, ObservationTimeLimit):
         raise
     except BaseException as e:  # noqa
         return None, 0, repr(e)[:300]
     for i, o in enumerate(prog["ops"]):
         try:
             apply_op(m, o)
-        except (KeyboardInterrupt, SystemExit):
+        except (KeyboardInterrupt, SystemExit, ObservationTimeLimit):
             raise
         except BaseException as e:  # noqa
             return m, i + 1, repr(e)[:300]
+    if prog.get("shared_strats"):
+        # the same Stratification objects are then applied to a second model with another compartment layout (as when
+        # several model variants are built from one set of stratification objects) before this one is run
+        try:
+            other = CompartmentalModel([t0, t1], ["Z0"] + list(reversed(prog["comps"])), list(prog["inf"]), timestep=h)
+            for st_ in list(_STRATS):
+                try:
+                    other.stratify_with(st_)
+                except (KeyboardInterrupt, SystemExit, ObservationTimeLimit):
+                    raise
+                except BaseException:  # noqa  (a stratification that does not fit the second model is skipped)
+                    pass
+        except (KeyboardInterrupt, SystemExit, ObservationTimeLimit):
+            raise
+        except BaseException:  # noqa
+            pass
     return m, None, None
 
 
@@ -518,7 +554,7 @@ def run_program(prog):
             out.append(r_)
         except ObservationTimeLimit:
             out.append({"error": "domain: time limit of %d s" % OBS_LIMIT})
-        except (KeyboardInterrupt, SystemExit):
+        except (KeyboardInterrupt, SystemExit, ObservationTimeLimit):
             raise
         except BaseException as e:  # noqa
             import traceback
@@ -536,7 +572,7 @@ def main():
         prog = json.loads(line)
         try:
             res = run_program(prog)
-        except (KeyboardInterrupt, SystemExit):
+        except (KeyboardInterrupt, SystemExit, ObservationTimeLimit):
             raise
         except BaseException as e:  # noqa
             res = {"harness_error": repr(e)[:300]}
